@@ -19,7 +19,8 @@ from pyvc.values import AbsObj, Arr, Obj, Opaque, PDict, PList, SV, mk, sym, to_
 # native: sequences of public-API operations on a real DrillholeGroup, compared with a model
 # ------------------------------------------------------------------------------------------
 
-OPS = ("add", "update", "remove", "reopen", "add_nan", "add_text", "update_text", "remove_hole_ws", "remove_hole_parent", "copy_group", "group_data", "idle_session")
+OPS = ("add", "update", "remove", "reopen", "add_nan", "add_text", "update_text", "remove_hole_ws", "remove_hole_parent", "copy_group", "group_data", "idle_session",
+       "add_iv", "update_iv", "copy_other_edit")
 
 
 def _file_tiling(path):
@@ -103,6 +104,8 @@ def run_history(case):
             model[f"H{h}"] = {}
 
         group_data = {}
+        table_seen = [False]
+        other = [None]  # a second workspace holding a copy of the group, kept open
 
         def check(where):
             g = ws.get_entity("DH")[0]
@@ -133,6 +136,31 @@ def run_history(case):
                 extra = names - set(datas) - {"DEPTH", "FROM", "TO"}
                 if extra:
                     return f"{where}: {hname} still lists removed data {sorted(extra)}"
+            # the group-wide table view of the interval table 'assays' lists exactly the per-hole values, in hole order
+            in_table = [hn for hn in sorted(model) if any(k.endswith("_iv") for k in model[hn])]
+            if in_table or table_seen[0]:
+                tables = g.drillholes_tables
+                if in_table and "assays" not in tables:
+                    return f"{where}: no table view for the property group 'assays' (tables: {sorted(tables)})"
+                if "assays" in tables:
+                    table_seen[0] = True
+                    tab = tables["assays"].depth_table
+                    ids = [x.decode() if isinstance(x, bytes) else str(x) for x in tab["Drillhole"]]
+                    uid_of = {hn: "{" + str([c for c in g.children if c.name == hn][0].uid) + "}" for hn in model}
+                    listed_ids = list(dict.fromkeys(ids))
+                    want_ids = [uid_of[hn] for hn in in_table]
+                    if sorted(listed_ids) != sorted(want_ids):
+                        return f"{where}: the table view lists {len(listed_ids)} holes {listed_ids}, the holes holding interval data are {want_ids}"
+                    for hn in in_table:
+                        rows = tab[np.array([k == uid_of[hn] for k in ids], dtype=bool)]
+                        for dname, exp in model[hn].items():
+                            if not dname.endswith("_iv"):
+                                continue
+                            if dname not in rows.dtype.names:
+                                return f"{where}: the table view has no column {dname!r} (columns {rows.dtype.names})"
+                            col = np.asarray(rows[dname], dtype=float)
+                            if col.shape != exp.shape or not np.allclose(col, exp, equal_nan=True, rtol=1e-6):
+                                return f"{where}: table view column {dname!r} of {hn} shows {col.tolist()} but the hole holds {exp.tolist()}"
             return None
 
         for step, (op, h, name) in enumerate(case["ops"]):
@@ -174,10 +202,39 @@ def run_history(case):
             elif op == "remove":
                 if name not in model[hname]:
                     continue
-                # removal through the parent (removal through the workspace leaves the entity in
-                # the in-memory child list: recorded under C05 as a known finding)
-                hole.remove_children(hole.get_data(name)[0])
+                # both entry points: through the parent and through the workspace
+                if step % 2:
+                    ws.remove_entity(hole.get_data(name)[0])
+                else:
+                    hole.remove_children(hole.get_data(name)[0])
                 del model[hname][name]
+            elif op in ("add_iv", "update_iv"):
+                # interval data of the property group 'assays' (shown by the group-wide table view)
+                iname = name + "_iv"
+                ft = np.c_[np.arange(3.0), np.arange(3.0) + 1]
+                if op == "add_iv" and iname not in model[hname]:
+                    vals = np.arange(3.0) + 10 * step + h + 0.5
+                    hole.add_data({iname: {"from-to": ft, "values": vals.copy()}}, property_group="assays")
+                    model[hname][iname] = vals
+                elif op == "update_iv" and iname in model[hname]:
+                    vals = (np.arange(3.0) - 100 * (step + 1) - h).astype(np.float32).astype(float)
+                    hole.get_data(iname)[0].values = vals.copy()
+                    model[hname][iname] = vals
+            elif op == "copy_other_edit":
+                # copy the group into a second workspace, then change a slice that is not the last one *in the copy*:
+                # the source must not notice (values checked below, tiling of the source file at the next close)
+                if other[0] is None and any(model.values()):
+                    other[0] = Workspace.create(os.path.join(d, "other.geoh5"), version=case.get("version", 2.0))
+                    cg = g.copy(parent=other[0])
+                    for ch in [c for c in cg.children if type(c).__name__.endswith("Drillhole")]:
+                        for dname in sorted(ch.get_data_list()):
+                            if dname in ("DEPTH", "FROM", "TO"):
+                                continue
+                            dat = ch.get_data(dname)[0]
+                            if dat.values is not None and np.asarray(dat.values).dtype.kind == "f":
+                                dat.values = np.asarray(dat.values, dtype=float)[:-1] + 1000.0  # shorter: rows move
+                                break
+                        break
             elif op == "copy_group":
                 # a copy of the whole group inside the same workspace: from now on two groups own rows
                 if ws.get_entity("DH copy")[0] is None:
@@ -237,10 +294,11 @@ def run_history(case):
         if bad:
             return f"{bad} ({case})"
     finally:
-        try:
-            ws.close()
-        except Exception:
-            pass
+        for w in (ws, other[0]):
+            try:
+                w.close()
+            except Exception:
+                pass
         shutil.rmtree(d, ignore_errors=True)
     return None
 
@@ -252,7 +310,7 @@ class ConcatHistories(Contract):
     symbolic = False
     has_native = True
     props = ("C04",)
-    bounded_scope = "2 holes x data names {Au, Cu}; operation sequences of length <= 4 (quick: 60 seeded + 30 fixed; thorough: 600) over add / add-with-NaN / remove a whole hole (through the workspace or the group, also straight after a re-open) / copy the group inside the workspace / data stored on the group itself / an idle open-list-close session (file digests unchanged) / add-text (each text longer than all earlier ones) / update / update-text / remove / re-open; both format versions; per-hole read-back after every step, raw file tiling after every close"
+    bounded_scope = "2 holes x data names {Au, Cu}; operation sequences of length <= 4 (quick: 60 seeded + 38 fixed; thorough: 600) over add / add-with-NaN / remove a whole hole (through the workspace or the group, also straight after a re-open) / copy the group inside the workspace / data stored on the group itself / an idle open-list-close session (file digests unchanged) / interval data in a property group with the group-wide table view compared after every step / a copy into a second workspace edited there / add-text (each text longer than all earlier ones) / update / update-text / remove / re-open; both format versions; per-hole read-back after every step, raw file tiling after every close"
 
     FIXED = [
         [("add", 0, "Au"), ("add", 1, "Au"), ("remove", 0, "Au"), ("reopen", 0, "")],
@@ -269,6 +327,10 @@ class ConcatHistories(Contract):
         [("add", 0, "Au"), ("reopen", 0, ""), ("add", 1, "Au"), ("copy_group", 0, ""), ("add", 0, "Cu"), ("reopen", 0, "")],
         [("add", 0, "Au"), ("group_data", 0, ""), ("idle_session", 0, ""), ("reopen", 0, ""), ("idle_session", 0, ""), ("update", 0, "Au")],
         [("group_data", 0, ""), ("add", 1, "Cu"), ("reopen", 0, ""), ("idle_session", 0, "")],
+        [("add_iv", 0, "Au"), ("add_iv", 1, "Au"), ("update_iv", 0, "Au"), ("remove_hole_ws", 1, ""), ("reopen", 0, "")],
+        [("add_iv", 0, "Au"), ("add_iv", 1, "Au"), ("add_iv", 1, "Cu"), ("update_iv", 1, "Au"), ("update_iv", 0, "Au"), ("reopen", 0, ""), ("update_iv", 1, "Cu")],
+        [("add", 0, "Au"), ("add", 1, "Au"), ("add", 1, "Cu"), ("copy_other_edit", 0, ""), ("update", 1, "Au"), ("reopen", 0, "")],
+        [("add", 0, "Au"), ("add", 0, "Cu"), ("add", 1, "Au"), ("reopen", 0, ""), ("copy_other_edit", 0, ""), ("add", 1, "Cu"), ("reopen", 0, "")],
         [("add_text", 0, "Au"), ("add", 0, "Au"), ("add_text", 1, "Au"), ("update_text", 1, "Au"), ("add_text", 1, "Cu"), ("reopen", 0, "")],
     ]
 
